@@ -333,12 +333,20 @@ static struct fetch *create_fetch(const struct peer *p, const cJSON *request, co
 		return NULL;
 	}
 
-	unsigned int number_of_matchers = cJSON_GetArraySize(path);
+	/*
+	 * Count the matchers the same way add_matchers() fills them: every
+	 * member except the (possibly repeated) case option.
+	 */
+	unsigned int number_of_matchers = 0;
+	for (const cJSON *member = path->child; member != NULL; member = member->next) {
+		if (strncmp(member->string, case_insensitive, sizeof(case_insensitive)) != 0) {
+			number_of_matchers++;
+		}
+	}
 
 	int ignore_case = 0;
 	const cJSON *match_ignore_case = get_case_insensitive(path);
 	if (match_ignore_case != NULL) {
-		number_of_matchers--;
 		if (match_ignore_case->type == cJSON_True) {
 			ignore_case = 1;
 		}
